@@ -62,11 +62,11 @@ theorem closure_sound (n : Nat) (flat : List PA) (A : PA) (σ : Asg) (hm : Match
 
 /-! ### `cl_no` and `upd_sub` for the concrete closure -/
 
-theorem closure_no (n : Nat) (flat : List PA) (A : PA) (hsz : ∀ g ∈ flat, 1 ≤ size g) (hn : size A ≤ n)
+theorem closure_no (n : Nat) (flat : List PA) (A : PA) (hn : size A ≤ n)
     (h : conclusionClosure (bucketsOf n flat) A = Closure.noUpdate) : ∀ g ∈ flat, g ≠ A := by
   intro g hg e
   subst e
-  have := closure_direct n flat g g hg rfl (PSub.refl _) (hsz g hg) hn
+  have := closure_direct n flat g g hg rfl (PSub.refl _) hn
   rw [this] at h; cases h
 
 theorem size_lt : ∀ (g A : PA), g.length = A.length → PSub g A →
